@@ -93,6 +93,16 @@ Theorem prefix_code_drops_error_refuted :
     step_with_errors_prefix Z Z.add 0%Z true k [mkThr false 0%Z; mkThr false 0%Z] tr = SOk a.
 Proof. exact prefix_drops_error. Qed.
 
+(* call sites outside the anchored files that discard the result of AddRangeJob and test only Wait
+   (matrixEstimator/shapeHmm_data.go:115; read, not exercised by the harness): the same failing job
+   list gives "no error" on the pool of one thread and an error on two threads *)
+Theorem addjob_result_ignored_refuted :
+  exists (tr1 tr2 : list (jevent Z)) (a : Z),
+    map snd tr1 = map snd tr2 /\ (exists i, In (i, JErr) tr1) /\
+    step_addjob_result_ignored Z Z.add 0%Z true 1 [mkThr false 0%Z] tr1 = SOk a /\
+    step_addjob_result_ignored Z Z.add 0%Z true 2 [mkThr false 0%Z; mkThr false 0%Z] tr2 = SErr.
+Proof. exact addjob_ignored_pool_dependent. Qed.
+
 (* (2) write-set disjointness, decided per call site on the transcribed access lists *)
 Theorem sites_write_only_owned_cells :
   forall s, In s all_sites -> site_ok s = true.
